@@ -204,8 +204,11 @@ where
     // Channel to collect results from all attempts
     let (tx, mut rx) = mpsc::channel::<(usize, Result<S::Response, S::Error>)>(max_attempts);
 
-    // Spawn primary request
-    let mut service_clone = service.clone();
+    // Spawn primary request on the instance that was polled ready; hedges use fresh
+    // clones, each driven to readiness before it is called
+    let template = service.clone();
+    let mut service_clone = service;
+    let service = template;
     let req_clone = req.clone();
     let tx_clone = tx.clone();
     tokio::spawn(async move {
@@ -294,7 +297,10 @@ where
                             let r = req.clone();
                             let tx_c = tx.clone();
                             tokio::spawn(async move {
-                                let result = svc.call(r).await;
+                                let result = match std::future::poll_fn(|cx| svc.poll_ready(cx)).await {
+                                    Ok(()) => svc.call(r).await,
+                                    Err(e) => Err(e),
+                                };
                                 let _ = tx_c.send((attempt_num, result)).await;
                             });
 
@@ -360,7 +366,10 @@ where
                     let r = req.clone();
                     let tx_c = tx.clone();
                     tokio::spawn(async move {
-                        let result = svc.call(r).await;
+                        let result = match std::future::poll_fn(|cx| svc.poll_ready(cx)).await {
+                            Ok(()) => svc.call(r).await,
+                            Err(e) => Err(e),
+                        };
                         let _ = tx_c.send((i, result)).await;
                     });
                 }
